@@ -567,7 +567,8 @@ class RTCRtpReceiver:
                             ssrc=ssrc,
                             fraction_lost=stream.fraction_lost,
                             packets_lost=stream.packets_lost,
-                            highest_sequence=stream.max_seq,
+                            highest_sequence=(stream.cycles + stream.max_seq)
+                            & 0xFFFFFFFF,
                             jitter=stream.jitter,
                             lsr=lsr,
                             dlsr=dlsr,
